@@ -272,6 +272,19 @@ func (p *Peer) randomValid() []byte {
 		}
 		return EncExtended(uint8(simrt.Pick(r, []int{1, 2, 3})), d, r.Bytes(simrt.Pick(r, []int{0, 1, 16384, 16385})))
 	case 13: // pex
+		if r.Bool() {
+			// a well-formed list that names addresses more than once
+			var added []byte
+			n := r.Range(2, 5)
+			for i := 0; i < n; i++ {
+				a := []byte{10, 77, byte(r.Intn(2)), byte(1 + r.Intn(3)), byte(4 + r.Intn(2)), byte(r.Intn(3))}
+				added = append(added, a...)
+				if r.Bool() {
+					added = append(added, a...)
+				}
+			}
+			return EncExtended(uint8(simrt.Pick(r, []int{1, 2})), map[string]any{"added": string(added), "added.f": string(make([]byte, len(added)/6)), "dropped": ""}, nil)
+		}
 		return EncExtended(uint8(simrt.Pick(r, []int{1, 2})), map[string]any{"added": string(r.Bytes(simrt.Pick(r, []int{0, 5, 6, 7, 600}))), "dropped": string(r.Bytes(simrt.Pick(r, []int{0, 6, 11}))), "added.f": "x"}, nil)
 	case 14: // extended message that is not bencode at all / wrong container
 		return frame(MsgExtended, append([]byte{byte(r.Intn(4))}, simrt.Pick(r, [][]byte{[]byte("le"), []byte("i5e"), []byte("d"), r.Bytes(20), gen.Bencode([]any{1, 2})})...))
